@@ -123,6 +123,50 @@ def build_classification(group):
     return req, cells
 
 
+ISOLATED = [('msg', 'other'), ('map', 'other'), ('map', 'same'), ('enum', 'same'), ('enum', 'other'), ('enum-then-msg', 'same'),
+            ('scalar', 'same'), ('map-enum', 'other')]
+
+
+def build_isolated(lay, loc):
+    """A library with exactly one paginated RPC, so that nothing else asks for the imports its pager needs.
+    Layout kinds beyond the classification product: repeated enum items, map with enum values."""
+    from ..desc import enum
+    other = file('acme/pg/v1/other.proto', P, messages=[message('OtherItem', [field('name', 1, 'string')])],
+                 enums=[enum('OtherShade', 'OTHER_SHADE_UNSPECIFIED', 'OTHER_DARK', 'OTHER_LIGHT')])
+    item = ITEM_LOC[loc]
+    shade = Q('Shade') if loc == 'same' else Q('OtherShade')
+    rf, nested, layout = [], [], []
+    if lay == 'msg':
+        rf.append(field('items', 1, item, repeated=True)); layout.append(['items', 'msg'])
+    elif lay == 'scalar':
+        rf.append(field('names', 1, 'string', repeated=True)); layout.append(['names', 'scalar'])
+    elif lay == 'map':
+        mf, me = map_field(Q('Rs'), 'index', 1, 'string', item)
+        rf.append(mf); nested.append(me); layout.append(['index', 'map'])
+    elif lay == 'map-enum':
+        mf, me = map_field(Q('Rs'), 'shades', 1, 'string', 'enum:' + shade)
+        rf.append(mf); nested.append(me); layout.append(['shades', 'map-enum'])
+    elif lay == 'enum':
+        rf.append(field('shades', 1, 'enum:' + shade, repeated=True)); layout.append(['shades', 'enum'])
+    elif lay == 'enum-then-msg':
+        rf.append(field('shades', 1, 'enum:' + shade, repeated=True)); layout.append(['shades', 'enum'])
+        rf.append(field('items', 2, item, repeated=True)); layout.append(['items', 'msg'])
+    rf.append(field('next_page_token', 5, 'string'))
+    msgs = [message('Item', [field('name', 1, 'string')]),
+            message('Rq', [field('parent', 1, 'string'), field('page_token', 2, 'string'), field('page_size', 3, 'int32')]),
+            message('Rs', rf, nested=nested)]
+    main = file('acme/pg/v1/svc.proto', P, messages=msgs, enums=[enum('Shade', 'SHADE_UNSPECIFIED', 'DARK', 'LIGHT')],
+                services=[service('Pg', [method('ListIt', Q('Rq'), Q('Rs'))])])
+    std = desc.std_dep_names()
+    other.dependency.extend(std)
+    main.dependency.extend(std + [other.name])
+    req = request([other, main], 'transport=grpc,autogen-snippets=false')
+    desc.gate(req)
+    cell = dict(id=f'isolated/{lay}/{loc}', rpc='ListIt', py='list_it', req=Q('Rq'), resp=Q('Rs'), expected=True,
+                first_rep=layout[0], layout=layout, item=item)
+    return req, [cell]
+
+
 def build_histories():
     mf, me = map_field(Q('ListMapResponse'), 'index', 1, 'string', Q('Item'))
     rq = lambda n: message(n, [field('parent', 1, 'string'), field('page_size', 2, 'int32'),
@@ -165,6 +209,15 @@ def jobs_for(ctx, only=None):
         jobs.append(dict(id=f'cls/{g[0]}/{g[1]}', req=req.SerializeToString(), probe='mc.probes.paging',
                          probe_args=dict(mode='classify', package=pkg, proto_package=P, cells=cells), _kind='cls',
                          _group=g, _cells=cells))
+    for lay, loc in ISOLATED:
+        if only and only.get('kind') != 'classification':
+            break
+        if only and tuple(only['group']) != ('isolated', f'{lay}/{loc}'):
+            continue
+        req, cells = build_isolated(lay, loc)
+        jobs.append(dict(id=f'cls/isolated/{lay}/{loc}', req=req.SerializeToString(), probe='mc.probes.paging',
+                         probe_args=dict(mode='classify', package=pkg, proto_package=P, cells=cells), _kind='cls',
+                         _group=('isolated', f'{lay}/{loc}'), _cells=cells))
     depth = (6 if ctx.thorough else 5)
     hreq = build_histories().SerializeToString()
     for kind, client in itertools.product(KINDS, CLIENTS):
@@ -195,7 +248,8 @@ def run(ctx, only=None):
     for job, res in zip(jobs, results):
         if not res['gen']['ok']:
             ctx.violation(f'{job["id"]}|generation:{res["gen"]["etype"]}:{res["gen"]["where"]}',
-                          f'generator failed: {res["gen"]["emsg"][:300]}', dict(kind='generation', job=job['id']))
+                          f'generator failed: {res["gen"]["emsg"][:300]}',
+                          dict(kind='classification', group=list(job['_group'])) if job['_kind'] == 'cls' else dict(kind='generation', job=job['id']))
             continue
         if 'probe_error' in res:
             raise HarnessError(f'C07 probe {job["id"]}: ' + res['probe_error'][-2000:])
@@ -203,7 +257,7 @@ def run(ctx, only=None):
         if obs.get('import_error'):
             e = obs['import_error']
             ctx.violation(f'{job["id"]}|import:{e["etype"]}:{e["where"]}', f'library does not import: {e["emsg"]}',
-                          dict(kind='generation', job=job['id']))
+                          dict(kind='classification', group=list(job['_group'])) if job['_kind'] == 'cls' else dict(kind='generation', job=job['id']))
             continue
         if job['_kind'] == 'cls':
             cells = {c['id']: c for c in job['_cells']}
